@@ -1334,7 +1334,9 @@ def div_record(ctx, spec, res):
             return
         if exc == "ValueError" and (et in DIV_REDUCED or (et in DIV_REDUCED_EXACT and spec.get("utd") and k >= 2)
                                     or (et in DIV_REDUCED_EXACT + DIV_REDUCED and entry == "util.u2_to_su2")) \
-                and "rthonormal" in res.get("msg", ""):
+                and ("rthonormal" in res.get("msg", "") or (et in DIV_REDUCED and "not unitary" in res.get("msg", ""))):
+            # inexact single precision: rows orthonormal only to ~1e-7; check_u2 (U U^dagger) and qiskit's UnitaryGate
+            # (U^dagger U), both at atol 1e-8, may disagree on a borderline matrix - either rejection is the documented one
             ctx.count(f"diversity:reduced-precision:{et}:rejected-ValueError")
             return
         if int_cs:
